@@ -66,10 +66,12 @@ def Coherent (f : String → D → V) (s : St D V) : Prop :=
   (s.idCur = none → s.cache = []) ∧ ∀ d0, s.idCur = some d0 → ∀ e ∈ s.cache, e.2 = f e.1 d0
 
 /-- what a cache-keeping mutator owes: it verifies first, and every value it keeps is, after its
-    transport, the value of that key on the changed data -/
+    transport, the value of that key on the data the cache id will point at afterwards — the changed data
+    when it re-stamps the id (`id_set()` / leaving `with self._cache:`), the old data when it does not
+    (the next `verify` then dumps the kept entries unless the data is back to what the id says) -/
 def MutSound (f : String → D → V) (m : Mutator D V) : Prop :=
   m.keep = [] ∨ (m.verifiesFirst = true ∧
-    ∀ d k, k ∈ m.keep → m.transport k d (f k d) = f k (m.apply d))
+    ∀ d k, k ∈ m.keep → m.transport k d (f k d) = f k (if m.setsId then m.apply d else d))
 
 def OpsSound (f : String → D → V) : List (Op D V) → Prop
   | [] => True
@@ -102,11 +104,13 @@ def registeredTransports : List (String × String) :=
    ("process", "face_normals"), ("process", "vertex_normals"),
    ("unmerge_vertices", "face_normals")]
 
-/-- the obligation on one table row: (name, keep, rewrites, setsId, flipsKeepingTopology, verifiesFirst) -/
+/-- the obligation on one table row: (name, keep, rewrites, setsId, flipsKeepingTopology, verifiesFirst).
+    A mutator that does not re-stamp the cache id may only keep values untouched (no rewrites). -/
 def rowOk (deps : List (String × List String))
     (row : String × List String × List String × Bool × Bool × Bool) : Bool :=
-  let name := row.1; let keep := row.2.1; let flipsKeeping := row.2.2.2.2.1; let verifies := row.2.2.2.2.2
-  (keep.isEmpty || verifies) && !flipsKeeping &&
+  let name := row.1; let keep := row.2.1; let rewrites := row.2.2.1; let setsId := row.2.2.2.1
+  let flipsKeeping := row.2.2.2.2.1; let verifies := row.2.2.2.2.2
+  (keep.isEmpty || verifies) && !flipsKeeping && (setsId || rewrites.isEmpty) &&
   keep.all (fun k => disjoint (depsOf deps k) (modifies name) || registeredTransports.contains (name, k))
 
 end TV.Cache
